@@ -181,7 +181,7 @@ def check(run: lib.Run, audit: dict) -> int:
                        "attribute-path segments do not name Python attributes of builtin values (DESIGN §2.1 ii)"]
     if not audit["ok"]:
         raise lib.CheckError(f"Lean build/audit failed at {audit['stage']}: {audit.get('log') or audit.get('forbidden') or audit.get('bad_axioms')}")
-    run_cases(run, audit)
+    run_cases(run, audit, scale=run.boost)
     violations = []
     consts = audit["facts"]["consts"]
     if run.disagreements and not run.spec_failures:
